@@ -198,4 +198,23 @@ PROPS = {
         "assumptions": COMMON_ASSUME + ["tidwall/gjson (GetBytes) and tidwall/sjson (SetBytesOptions) are executed from their SSA, including their unsafe string/[]byte header casts (engine/interp/unsafe.go)"],
         "outside": ["all YAML matchers (goccy/go-yaml lexer, parser, printer and path engine cannot be encoded)", "gjson path syntax beyond plain member/index paths", "keys needing escapes"],
     },
+    "C06": {
+        "runs": [
+            {"harness": "H_C06_parallel", "stress": 20000, "quick": {"preempt": 2}, "thorough": {"preempt": 3}},
+        ],
+        "bounds": {"quick": "2 goroutines, one MatchSnapshot call each, every pair of {create, match, mismatch, update}; every interleaving at file-system and lock operations with <= 2 preemptions",
+                   "thorough": "<= 3 preemptions"},
+        "assumptions": COMMON_ASSUME + ["each file-system operation and each lock operation is atomic; goroutines interleave only at those operations (sequentially consistent model)",
+                                        "a schedule-dependent counterexample is confirmed natively by repeating the scenario with real goroutines until it shows"],
+        "outside": ["the data-race clause in the Go-memory-model sense (race detector)", "more than 2 goroutines", "multi-syscall writes"],
+    },
+    "C16": {
+        "runs": [
+            {"harness": "H_C16_mask", "reach": ["same", "different"], "quick": {"n": 1}, "thorough": {"n": 2}},
+        ],
+        "bounds": {"quick": "document {a:S,m:S} with string values of <= 1 byte; m masked by Any, Type[string] or Custom; variants with independent masked values and equal or different unmasked value; MatchJSON and MatchStandaloneJSON",
+                   "thorough": "string values of <= 2 bytes"},
+        "assumptions": COMMON_ASSUME + ["tidwall gjson/sjson/pretty executed from SSA"],
+        "outside": ["YAML matchers (goccy/go-yaml)"],
+    },
 }
